@@ -86,7 +86,13 @@ pub fn generate_group(run_seed: u64) -> GroupSpec {
     gen.max_len = *c.pick(&[40u32, 300, 1200, 3000, 6000, 12000]);
     // one group in 48 has chromosome-sized contigs (own stream): thresholds in the code under
     // test (block sizes, "long contig" fast paths) are far above the usual simulated sizes
-    if Rng::new(run_seed ^ 0xB16_C11).below(48) == 0 {
+    if Rng::new(run_seed ^ 0xB16_C12).below(2000) == 0 {
+        // ... and one group in 2000 a reference of more than a million k-mers
+        gen.ref_contigs = 2;
+        gen.max_len = 1_600_000;
+        gen.tiny_pct = 0;
+        gen.n_samples = 1;
+    } else if Rng::new(run_seed ^ 0xB16_C11).below(48) == 0 {
         gen.ref_contigs = 1 + (run_seed % 2) as u32;
         gen.max_len = 200_000;
         gen.tiny_pct = 0;
@@ -177,7 +183,7 @@ fn body(p: &Prepared) -> SplitOut {
 /// Independent model: canonical k-mers (left-aligned 2-bit packing, the smaller of the window and
 /// its reverse complement), windows containing a non-ACGT code do not count.
 fn model_counts(contigs: &[Vec<u8>], k: usize) -> BTreeMap<u64, u32> {
-    let mut m: BTreeMap<u64, u32> = BTreeMap::new();
+    let mut all: Vec<u64> = Vec::new();
     for c in contigs {
         if c.len() < k {
             continue;
@@ -192,8 +198,19 @@ fn model_counts(contigs: &[Vec<u8>], k: usize) -> BTreeMap<u64, u32> {
                 d |= (b as u64) << (62 - 2 * i);
                 rc |= (3 - w[k - 1 - i] as u64) << (62 - 2 * i);
             }
-            *m.entry(d.min(rc)).or_insert(0) += 1;
+            all.push(d.min(rc));
         }
+    }
+    all.sort_unstable();
+    let mut m: BTreeMap<u64, u32> = BTreeMap::new();
+    let mut i = 0;
+    while i < all.len() {
+        let mut j = i + 1;
+        while j < all.len() && all[j] == all[i] {
+            j += 1;
+        }
+        m.insert(all[i], (j - i).min(u32::MAX as usize) as u32);
+        i = j;
     }
     m
 }
